@@ -158,6 +158,18 @@ def judge(o: Outcome, c, e, ob):
             devs = []
             # the specification's value contains brace text produced by an expansion ({{((}}..{{))}}):
             # the Lua side preprocesses argument strings again after they were substituted/expanded
+            # deliberate: a final newline of positional values is removed before Lua sees them
+            def _nl(v):
+                if isinstance(v, dict):
+                    return {k: (w[:-1] if isinstance(k, int) and isinstance(w, str) and w.endswith("\n") else w) for k, w in v.items()}
+                if isinstance(v, list):
+                    return [w[:-1] if isinstance(w, str) and w.endswith("\n") else w for w in v]
+                return v
+            if what in ("frame.args", "parent args") or what.startswith("frame.args read") or what.startswith("parent.args read"):
+                if g == _nl(x) and g != x:
+                    o.classify({**case, "what": what, "got": str(g)[:200], "specification": str(x)[:200]},
+                               f"{what} seen by Lua is {g!r}; the specification gives {x!r}", ["LuaPositionalFinalNewlineDropped"], cls=what + "/newline")
+                    continue
             spec_text = json.dumps(x, default=str)
             if ("{{" in spec_text or "}}" in spec_text) and what != "frame:preprocess" and c["depth"] > 0:
                 devs = ["LuaArgumentsPreprocessedAgain"]
